@@ -543,6 +543,12 @@ func (vc *VC) frameObligations(fr *Frame, envPre *Env, exit *State) {
 						targets = append(targets, target{root: vc.rootOfValue(envPre, v, vt), whole: true})
 						return
 					}
+					if id.Name == "all" {
+						if g, ok := x.Args[0].(*SIdent); ok {
+							ghostVarOK["G_"+g.Name] = true
+						}
+						return
+					}
 					if id.Name == "mapall" {
 						v, _ := vc.specExpr(envPre, x.Args[0])
 						targets = append(targets, target{root: Root(v), whole: true})
@@ -608,6 +614,9 @@ func (vc *VC) frameObligations(fr *Frame, envPre *Env, exit *State) {
 			}
 			goal = Eq(cur, old)
 		case strings.HasPrefix(name, "G_"):
+			if ghostVarOK[name] {
+				continue
+			}
 			ks, _ := splitArraySort(sortN)
 			k := vc.q.Fresh("fr$k", ks)
 			var exc []Term
